@@ -261,19 +261,20 @@ fn lexer_panic_site(loc: &str, msg: &str) -> String {
 
 fn check_infile<E: std::fmt::Display>(stage: &str, inf: &InFile<E>, out: &mut Vec<String>, nerr: &mut usize) {
     let errors: &gluon::base::error::Errors<Spanned<E, BytePos>> = inf.errors();
+    let stage_key = stage.split('+').next().unwrap_or(stage);
     for e in errors.iter() {
         *nerr += 1;
         let (s, t) = (e.span.start(), e.span.end());
         match inf.source().get(s) {
-            None => out.push(format!("error-span-outside-any-file|{} span {}..{}", stage, s.to_usize(), t.to_usize())),
+            None => out.push(format!("error-span-outside-any-file:{}|{} span {}..{}", stage_key, stage, s.to_usize(), t.to_usize())),
             Some(file) => {
                 let base = file.span().start().to_usize();
                 let src = file.source();
                 let (a, b) = (s.to_usize().wrapping_sub(base), t.to_usize().wrapping_sub(base));
                 if a > b || b > src.len() {
-                    out.push(format!("error-span-out-of-bounds|{} file {} span {}..{} len {}", stage, file.name(), a, b, src.len()));
+                    out.push(format!("error-span-out-of-bounds:{}|{} file {} span {}..{} len {}: {}", stage_key, stage, file.name(), a, b, src.len(), one_line(&e.value.to_string(), 80)));
                 } else if !src.is_char_boundary(a) || !src.is_char_boundary(b) {
-                    out.push(format!("error-span-not-on-char-boundary|{} file {} span {}..{}", stage, file.name(), a, b));
+                    out.push(format!("error-span-not-on-char-boundary:{}|{} file {} span {}..{}: {}", stage_key, stage, file.name(), a, b, one_line(&e.value.to_string(), 80)));
                 }
             }
         }
@@ -939,6 +940,124 @@ fn gen_soup(rng: &mut Rng, bad: bool) -> String {
     s
 }
 
+/// Random small expression (well-formed syntax, mostly ill-typed): exercises renaming and the type
+/// checker rather than the parser's error recovery.
+fn gen_expr(rng: &mut Rng, depth: u32, vars: &mut Vec<String>, out: &mut String) {
+    let leaf = depth == 0 || rng.chance(1, 4);
+    if leaf {
+        match rng.below(8) {
+            0 | 1 => out.push_str(&rng.below(10).to_string()),
+            2 => out.push_str("\"s\""),
+            3 => out.push_str("1.5"),
+            4 => out.push_str("[]"),
+            5 => out.push_str("()"),
+            _ => {
+                if vars.is_empty() {
+                    out.push('y')
+                } else {
+                    let v = rng.pick(vars).clone();
+                    out.push_str(&v)
+                }
+            }
+        }
+        return;
+    }
+    let fresh = |rng: &mut Rng| format!("{}{}", ["x", "f", "n", "acc"][rng.below(4) as usize], rng.below(3));
+    match rng.below(14) {
+        0 | 1 => {
+            let v = fresh(rng);
+            out.push_str(&format!("(\\{} -> ", v));
+            vars.push(v);
+            gen_expr(rng, depth - 1, vars, out);
+            vars.pop();
+            out.push(')');
+        }
+        2 | 3 => {
+            out.push('(');
+            gen_expr(rng, depth - 1, vars, out);
+            for _ in 0..1 + rng.below(2) {
+                out.push(' ');
+                gen_expr(rng, depth - 1, vars, out);
+            }
+            out.push(')');
+        }
+        4 => {
+            out.push_str("(if ");
+            gen_expr(rng, depth - 1, vars, out);
+            out.push_str(" then ");
+            gen_expr(rng, depth - 1, vars, out);
+            out.push_str(" else ");
+            gen_expr(rng, depth - 1, vars, out);
+            out.push(')');
+        }
+        5 => {
+            out.push('(');
+            gen_expr(rng, depth - 1, vars, out);
+            out.push_str(", ");
+            gen_expr(rng, depth - 1, vars, out);
+            out.push(')');
+        }
+        6 => {
+            out.push_str("{ a = ");
+            gen_expr(rng, depth - 1, vars, out);
+            if rng.chance(1, 2) {
+                out.push_str(", b = ");
+                gen_expr(rng, depth - 1, vars, out);
+            }
+            out.push_str(" }");
+        }
+        7 => {
+            out.push('[');
+            gen_expr(rng, depth - 1, vars, out);
+            out.push(']');
+        }
+        8 => {
+            let v = fresh(rng);
+            out.push_str(&format!("(let {} = ", v));
+            gen_expr(rng, depth - 1, vars, out);
+            out.push_str(" in ");
+            vars.push(v);
+            gen_expr(rng, depth - 1, vars, out);
+            vars.pop();
+            out.push(')');
+        }
+        9 | 10 => {
+            let f = fresh(rng);
+            let a = fresh(rng);
+            out.push_str(&format!("(rec let {} = \\{} -> ", f, a));
+            vars.push(f);
+            vars.push(a);
+            gen_expr(rng, depth - 1, vars, out);
+            vars.pop();
+            out.push_str(" in ");
+            gen_expr(rng, depth - 1, vars, out);
+            vars.pop();
+            out.push(')');
+        }
+        11 => {
+            gen_expr(rng, depth - 1, vars, out);
+            out.push_str(if rng.chance(1, 2) { ".a" } else { ".b" });
+        }
+        12 => {
+            out.push('(');
+            gen_expr(rng, depth - 1, vars, out);
+            out.push_str(*rng.pick(&[" #Int+ ", " #Int< ", " #Int== ", " #Float* "]));
+            gen_expr(rng, depth - 1, vars, out);
+            out.push(')');
+        }
+        _ => {
+            let v = fresh(rng);
+            out.push_str("(match ");
+            gen_expr(rng, depth - 1, vars, out);
+            out.push_str(&format!(" with | {} -> ", v));
+            vars.push(v);
+            gen_expr(rng, depth - 1, vars, out);
+            vars.pop();
+            out.push(')');
+        }
+    }
+}
+
 struct Seed {
     name: String,
     text: String,
@@ -1224,6 +1343,13 @@ fn main() {
         let bad = i % 5 == 4;
         inputs.push((if bad { "soup:non-ascii".into() } else { "soup".into() }, gen_soup(&mut rng, bad)));
     }
+    let n_expr = scale(900, 20000);
+    for _ in 0..n_expr {
+        let mut e = String::new();
+        let d = 2 + rng.below(3) as u32;
+        gen_expr(&mut rng, d, &mut Vec::new(), &mut e);
+        inputs.push(("expr".into(), truncate_to(&e, MAX_LEN).to_string()));
+    }
     let seeds = collect_seeds();
     hist.addn("seeds", seeds.len() as u64);
     if !seeds.is_empty() {
@@ -1272,13 +1398,12 @@ fn main() {
     let mut model_in = args.file("model_in.txt");
     let mut impl_out = args.file("impl_out.txt");
     let mut cases_f = args.file("cases.txt");
-    let fx = args.extra.get("fx").map(|s| s.as_str()).unwrap_or("0");
     let mut lexer_panics: BTreeMap<String, serde_json::Value> = BTreeMap::new();
     let mut n_panic = 0u64;
     let mut unescape_panics: BTreeMap<String, serde_json::Value> = BTreeMap::new();
     for (i, (fam, s)) in inputs.iter().enumerate() {
         let r = lex.get(&i).cloned().unwrap_or_else(|| "missing".into());
-        writeln!(model_in, "fx={};in={}", fx, hex(s.as_bytes())).unwrap();
+        writeln!(model_in, "in={}", hex(s.as_bytes())).unwrap();
         writeln!(impl_out, "{}", r).unwrap();
         writeln!(cases_f, "{} {}", fam, hex(s.as_bytes())).unwrap();
         if r.contains(":panic:") {
@@ -1438,7 +1563,7 @@ fn main() {
             "monitor_with_prelude": mon_cases.iter().filter(|c| c.1).count(),
             "reported_errors_checked": reported_errors,
             "distinct_nontrivial": nontrivial,
-            "rule": "inputs of at least 2 bytes, distinct by content (FNV-1a of the bytes); families: corpus, random bytes forced to UTF-8 (lossy / weighted chars / ASCII), token soups with random indentation, mutants (delete/duplicate/swap/insert tokens, re-indent, truncate at and inside tokens) of windows of std/*.glu, tests/pass/*.glu, examples/*.glu",
+            "rule": "inputs of at least 2 bytes, distinct by content (FNV-1a of the bytes); families: corpus, random bytes forced to UTF-8 (lossy / weighted chars / ASCII), token soups with random indentation, random small expression trees, mutants (delete/duplicate/swap/insert tokens, re-indent, truncate at and inside tokens) of windows of std/*.glu, tests/pass/*.glu, examples/*.glu",
             "hist": hist.to_json(),
             "wall": {"lexer_s": t_lex, "monitor_s": t_mon, "nesting_s": t_nest},
         }),
